@@ -278,7 +278,7 @@ fn inner(c: &OrderCase) -> Result<CaseReport, Stop> {
                             if full && ek(&e) == EK::Os(EAGAIN) {
                                 return Err(stop_fail(
                                     "UnixStream::connect|EAGAIN|backlog full",
-                                    format!("blocking UnixStream::connect against a listener whose queue was full ({pending_at_call} connections pending, libc listen backlog {} holds {capacity}) returned {e} instead of completing when the peer accepted (a helper thread accepts one connection 3 ms + {} us after the call starts, or once the call has returned)", c.backlog, delay_us),
+                                    format!("blocking UnixStream::connect against a listener whose queue was full ({pending_at_call} connections pending; {} holds {capacity}) returned {e} instead of completing when the peer accepted (a helper thread accepts one connection 3 ms + {} us after the call starts, or once the call has returned)", if mode == 0 { format!("libc listener, listen backlog {}", c.backlog) } else { "tiny-std listener, backlog clamped to net.core.somaxconn".to_string() }, delay_us),
                                 ));
                             }
                             return Err(unexpected(opname, &e, if full { "listener queue full, peer accepts" } else { "listener has room" }));
